@@ -157,7 +157,7 @@ FamilyScenarios == CASE Family = "C03" -> C03Family
                      [] Family = "C02" -> CycleFamily \cup C05Family \cup MatchFamily
                      [] Family = "C06" -> CycleFamily \cup C04Family
                      [] Family = "C04" -> C04Family
-                     [] Family = "C13" -> CycleFamily
+                     [] Family = "C13" -> CycleFamily \cup MatchFamily
                      [] Family = "C01" -> C03Family \cup CycleFamily \cup MatchFamily
                      [] Family = "C16" -> {x \in C16Family : x.ndef <= Len(x.inputs)}
                      [] OTHER -> {}
